@@ -207,6 +207,7 @@ def _(self: ElemK, survey: SurveyS) -> XNode:
 def _(self: ElemK, survey: SurveyS) -> XNode:
     properties("C06", "C07")
     no_native("needs survey-element objects: exercised through the e2e oracles")
+    functional("HintNode")
     may_raise(PyXFormError, when=True)
     H = some(self.hint)
     via_itext = isinstance(self.hint, dict) or bool(self.guidance_hint)
@@ -218,3 +219,33 @@ def _(self: ElemK, survey: SurveyS) -> XNode:
                     and implies(not IovFlag(survey, H, self), len(result.kids) == 1 and result.kids[0].nodeType == 3
                                 and result.kids[0].data == IovText(survey, H, self))))
     ensures(implies(not via_itext and not bool(self.hint), len(result.kids) == 0 and len(keys(result.attrs)) == 0))
+
+
+@spec
+def LabelNode(e: ElemK, survey: SurveyS) -> XNode:
+    uninterpreted()
+
+
+@spec
+def HintNode(e: ElemK, survey: SurveyS) -> XNode:
+    uninterpreted()
+
+
+@contract("SurveyElement.xml_label_and_hint")
+def _(self: ElemK, survey: SurveyS) -> List[XNode]:
+    properties("C04", "C06", "C07", "C17")
+    no_native("needs survey-element objects: exercised through the e2e oracles and the runtime monitor")
+    may_raise(PyXFormError, when=True)
+    has_label = bool(self.label) or bool(self.media)
+    has_hint = bool(self.hint) or bool(self.guidance_hint)
+    M = some(self.media)
+    # C17: a visible row needs something to show: no label, media or hint at all, or a guidance hint alone (hidden by
+    # default in clients), is refused naming the row; big-image without an image is refused
+    raises(PyXFormError, when=(not has_label and not has_hint)
+           or (not bool(self.label) and not bool(self.media) and not bool(self.hint) and bool(self.guidance_hint))
+           or (self.media is not None and "image" not in M and "big-image" in M))
+    # C04: the label element first — also when only a hint was written — then the hint element when the row has a hint
+    # or a guidance hint; each built by the proved xml_label / xml_hint, nothing else
+    ensures(len(result) == (2 if has_hint else 1))
+    ensures(result[0] == LabelNode(self, survey))
+    ensures(implies(has_hint, result[1] == HintNode(self, survey)))
